@@ -308,6 +308,8 @@ func TestC13(t *testing.T) {
 	R.Assume("commands are run in-process (functions report, encode) on temp files, every=0; os.Stdin/os.Stdout are not used")
 
 	p := cresPool()
+	// one record larger than every I/O buffer on the path (bufio 4 KiB, Scanner 64 KiB); it is never the first record of the set
+	p[6].Body, p[6].BytesIn = cresBigBody(100000), 100000
 	N := 7
 	NK := ev.Pick(6, 7) // n for k = 4..6
 	R.Set("max_records_k_le_3", N)
